@@ -112,10 +112,17 @@ func Conv(g *G, n int) []Program {
 			default:
 				v := edgeInts[g.R.Intn(len(edgeInts))]
 				e := int64(g.R.Intn(81) - 40)
-				if g.R.Intn(3) == 0 {
+				switch g.R.Intn(6) {
+				case 0, 1:
 					e = g.ExtremeExp()
+				case 2: // any int is a legal exponent argument: the ends of int64, where exponent + digit count wraps
+					e = g.PickI64(9223372036854775807, 9223372036854775806, 9223372036854775788, -9223372036854775808, -9223372036854775807,
+						-9223372036854775789, 4294967296, -4294967296, 2147483648, -2147483649, 9223372036854775807-int64(g.R.Intn(40)), -9223372036854775808+int64(g.R.Intn(40)))
 				}
 				g.Emit(M{"op": "NewDecimal", "z": "r2", "i": v, "e": itoa(e)})
+				if e > 2147483647 || e < -2147483648 {
+					g.Emit(M{"op": "New", "z": "r2"}) // the 32-bit executor cannot run the step above: resynchronise the register
+				}
 			}
 		case k < 80: // SetInt with big integers (radix conversion loops), all precisions
 			p, m := g.Pick(0, 0, g.Prec()), g.Mode()
